@@ -32,8 +32,11 @@ fn gen_content(rng: &mut Rng) -> Content {
         let k = rng.range(0, 4);
         for _ in 0..k {
             n += 1;
+            // ids of the lengths this library generates and of others (imported / synced credentials,
+            // security-key key handles): a held id is any byte string up to 1023 bytes
+            let len = *rng.pick(&[16usize, 16, 16, 16, 32, 64, 65, 128, 255, 2]);
             let id: Vec<u8> = {
-                let mut v = rng.bytes(15);
+                let mut v = rng.bytes(len - 1);
                 v.push(n);
                 v
             };
@@ -599,6 +602,99 @@ fn part_e(rep: &mut Report, seed: u64, index: u64) {
 }
 
 /// end-to-end consequence over the shipped in-memory store: credential of RP A, assertion requested for RP B
+// ---------------------------------------------------------------------------------------------
+// (f) the exclusion rule while another ceremony holds the shared store's lock
+// ---------------------------------------------------------------------------------------------
+
+/// Two ceremonies on one store shared through a lock wrapper, the store suspending inside its calls
+/// (so the wrapper's lock is held across a suspension point): a registration whose exclude list names
+/// a held credential, next to another ceremony. Every poll order is run. In each of them the
+/// registration is refused as excluded and creates nothing.
+fn part_f(rep: &mut Report, index: u64) {
+    use crate::exec::{dfs_schedules, run_schedule, BoxFut, SchedEnd};
+    const RP: &str = "alpha.example";
+    let k = index - 6_000_000;
+    let rwlock = k & 1 == 1;
+    let other_is_assertion = k & 2 != 0;
+    let store_yields = 1 + ((k >> 2) & 1) as usize;
+    let uv_yields = ((k >> 3) & 1) as usize;
+    let cj = json!({"index": index, "part": "f", "wrapper": if rwlock {"Arc<RwLock>"} else {"Arc<Mutex>"}, "other_ceremony": if other_is_assertion {"assertion on the held credential"} else {"registration of another user"},
+        "store_suspends_per_call": store_yields, "user_validation_suspends": uv_yields});
+    let mut schedules = 0u64;
+    let r = catch(|| {
+        dfs_schedules(
+            |prefix| {
+                rep.eval();
+                let log = crate::collab::Log::new();
+                let st = RecStore::new(log.clone(), Disc::Full);
+                let mut rng = Rng::derive(5, "c05f", k);
+                let held = vec![0x51u8; 16];
+                let (p, _, _) = seeded_passkey(&mut rng, RP, &held, Some(b"held-user"), Some(3), None);
+                st.insert_raw(p);
+                st.set_all_yields(store_yields);
+                let handle = st.clone();
+                macro_rules! go {
+                    ($shared:expr) => {{
+                        let shared = $shared;
+                        let mut auths = Vec::new();
+                        for i in 0..2 {
+                            let uv = RecUv::new(log.clone(), UvOutcome::Check { presence: true, verification: true }, Some(true)).with_actor(i);
+                            uv.set_yields(uv_yields);
+                            auths.push(mk_auth(shared.clone(), uv, AuthCfg { counters: true, ..Default::default() }));
+                        }
+                        let mut it = auths.iter_mut();
+                        let (a0, a1) = (it.next().unwrap(), it.next().unwrap());
+                        let held = &held;
+                        let tasks: Vec<BoxFut<Result<(), u8>>> = vec![
+                            Box::pin(async move {
+                                if other_is_assertion {
+                                    a0.get_assertion(ga_request(RP, &[1u8; 32], Some(vec![descriptor(held)]), None, true, true)).await.map(|_| ()).map_err(|e| status_byte_ref(&e))
+                                } else {
+                                    a0.make_credential(mc_request(RP, b"other-user", &[2u8; 32], vec![pk_param(coset::iana::Algorithm::ES256)], None, None, true, true, true)).await.map(|_| ()).map_err(|e| status_byte_ref(&e))
+                                }
+                            }),
+                            Box::pin(async move {
+                                a1.make_credential(mc_request(RP, b"dup-user", &[3u8; 32], vec![pk_param(coset::iana::Algorithm::ES256)], Some(vec![descriptor(&[0xEEu8; 16]), descriptor(held)]), None, true, true, true))
+                                    .await
+                                    .map(|_| ())
+                                    .map_err(|e| status_byte_ref(&e))
+                            }),
+                        ];
+                        run_schedule(tasks, |s, _n| usize::from(*prefix.get(s).unwrap_or(&0)), 10_000)
+                    }};
+                }
+                let out = if rwlock { go!(Arc::new(tokio::sync::RwLock::new(st))) } else { go!(Arc::new(tokio::sync::Mutex::new(st))) };
+                schedules += 1;
+                rep.nontrivial(fnv_str(&format!("f|{k}|{:?}", out.choices)));
+                let case = json!({"case": cj, "schedule": out.choices});
+                if out.end != SchedEnd::AllDone {
+                    rep.violate("f: the two ceremonies do not both finish", format!("{:?}", out.end), case);
+                    return out.branching;
+                }
+                match &out.outputs[1] {
+                    Some(Err(0x19)) => rep.count("f_excluded"),
+                    Some(Ok(())) => rep.violate("f: registration succeeded although the exclude list names a credential held for the RP (another ceremony held the store's lock)", format!("schedule {:?}", out.choices), case.clone()),
+                    other => rep.violate("f: registration naming a held credential in its exclude list ended with another status than credential-excluded", format!("{other:?} in schedule {:?}", out.choices), case.clone()),
+                }
+                if handle.snapshot().iter().any(|c| c.user_handle.as_deref() == Some(b"dup-user".as_slice())) {
+                    rep.violate("f: an excluded registration left a credential in the store", format!("schedule {:?}", out.choices), case);
+                }
+                out.branching
+            },
+            4000,
+        )
+    });
+    match r {
+        Ok((_, complete)) => {
+            rep.count_n("f_schedules", schedules);
+            if complete {
+                rep.count("f_configurations_enumerated_completely");
+            }
+        }
+        Err((sig, d)) => rep.violate(&format!("f: {sig}"), d, cj),
+    }
+}
+
 fn part_b_e2e(rep: &mut Report, seed: u64, index: u64) {
     let mut rng = Rng::derive(seed, "c05e", index);
     rep.eval();
@@ -633,7 +729,7 @@ pub fn run(args: &Args) -> Report {
         "C05",
         &args.tier,
         args.seed,
-        "(a) get_assertion / make_credential over a reference store holding 0-4 credentials for each of 3 RPs (identical user handles) with allow/exclude lists absent, empty, hit, hit+miss, miss, ids of another RP, all reversed, proper prefix / extension of a held id, the empty id, under every store capability; (b) the same contents in MemoryStore, Option<Passkey> and their lock wrappers queried with generated (id list, RP) pairs and compared with the contract; (c) the same rule through Client::register / authenticate with descriptors carrying transport hints (absent, empty, usb+nfc, internal+hybrid, random); (d) get_assertion over a conforming store whose items are vault entries, a third of which cannot be converted into a credential; (e) U2F registration and authentication over the reference store with another application parameter and a challenge equal to the credential's application; distinct by (part, store type, list class, RP, content size); non-trivial when the id list or RP id discriminates (>= 2 RPs or >= 2 credentials involved)",
+        "(a) get_assertion / make_credential over a reference store holding 0-4 credentials for each of 3 RPs (identical user handles) with allow/exclude lists absent, empty, hit, hit+miss, miss, ids of another RP, all reversed, proper prefix / extension of a held id, the empty id, under every store capability; (b) the same contents in MemoryStore, Option<Passkey> and their lock wrappers queried with generated (id list, RP) pairs and compared with the contract; (c) the same rule through Client::register / authenticate with descriptors carrying transport hints (absent, empty, usb+nfc, internal+hybrid, random); (d) get_assertion over a conforming store whose items are vault entries, a third of which cannot be converted into a credential; (e) U2F registration and authentication over the reference store with another application parameter and a challenge equal to the credential's application; (f) all poll orders of a registration whose exclude list names a held credential next to another ceremony on a suspending store shared through Arc<Mutex> / Arc<RwLock>; held ids of 2-255 bytes; distinct by (part, store type, list class, RP, content size); non-trivial when the id list or RP id discriminates (>= 2 RPs or >= 2 credentials involved)",
     );
     rep.assumptions.push("the documented contract: find_credentials returns all credentials matching the ids (when given) and the rp_id; Err(NoCredentials) is equivalent to an empty result".into());
     let only = replay_index(args);
@@ -670,6 +766,12 @@ pub fn run(args: &Args) -> Report {
             if let Err((sig, d)) = catch(|| part_e(&mut rep, args.seed, idx)) {
                 rep.violate(&format!("e: {sig}"), d, json!({"index": idx}));
             }
+        }
+    }
+    for i in 0..16 {
+        let idx = 6_000_000 + i;
+        if only.map_or(true, |o| o == idx) {
+            part_f(&mut rep, idx);
         }
     }
     for i in 0..4 {
